@@ -560,6 +560,13 @@ func (ps *pathState) assertion(c *term, label string) {
 	if c.isFalse() {
 		panic(pathEnd{"violation", label})
 	}
+	// continue only with the inputs for which the assertion holds; if there are
+	// none the path ends here (otherwise the path condition would be unsatisfiable)
+	r := ps.check(c)
+	ps.popQuery()
+	if r != "sat" {
+		panic(pathEnd{"violation", label})
+	}
 	ps.assert(c)
 }
 
